@@ -6,6 +6,8 @@ CONSTANTS Coef2 <- R22
  CoefA3 <- R22
  CoefB3 <- R22
  Const3 <- R11
+ CoefR <- R22
+ ConstR <- R11
  B = 20
  BU = 10
  BS = 8
